@@ -25,6 +25,9 @@ pub struct Resend {
     pub junk: Vec<Vec<u8>>,
     pub mutate_again: bool,
     pub vis: u8,
+    /// after the hold phase the entity gets a structural change (delivered reliably) before the old acknowledgements arrive
+    #[serde(default)]
+    pub insert_before_release: bool,
 }
 
 pub fn run_resend(c: &Resend) -> Outcome {
@@ -91,9 +94,36 @@ pub fn run_resend(c: &Resend) -> Outcome {
         sim.client_frame(1);
         while sim.deliver_c2s(1, 0, 0) {}
     }
+    let last_delivered = c.hold.last().copied().unwrap_or(false);
+    let mut strict = c.timeout_ms >= 10_000 && c.junk.is_empty();
+    if c.insert_before_release {
+        // a structural change on the same entity: the update message carries its pending mutations, too, and is delivered
+        let has_s = sim.slots[0].is_some_and(|e| sim.has_k(e, K::S));
+        sim.step(&if has_s { Step::Remove { slot: 0, k: K::S } } else { Step::Insert { slot: 0, k: K::S } });
+        sim.step(&Step::ServerFrame { tick: true });
+        sim.clients[0].s2c[1].clear();
+        while sim.deliver_s2c(0, 0, 0) {}
+        sim.client_frame(0);
+    } else if !last_delivered {
+        strict = false;
+    }
     // junk in front of / between the genuine acknowledgements
     for j in &c.junk {
         sim.step(&Step::JunkAck { client: 0, bytes: j.clone() });
+    }
+    if strict {
+        // "stops being re-sent afterwards": the client has the latest data (last mutate message, or the update message) and
+        // every acknowledgement now reaches the server; the very next tick must not carry the mutation again
+        while sim.deliver_c2s(0, 0, 0) {}
+        sim.step(&Step::ServerFrame { tick: true });
+        let lens: Vec<usize> = sim.clients[0].s2c[1].iter().map(|m| m.bytes.len()).collect();
+        let carries_data = if c.track { lens.iter().any(|l| *l > idle_len) } else { !lens.is_empty() };
+        if carries_data {
+            return Outcome::failed(Fail::new(
+                "C11.resent_after_ack",
+                format!("the mutation was sent again (message lengths {lens:?}, idle length {idle_len}) in the tick after all acknowledgements had arrived and the client had the data"),
+            ));
+        }
     }
     // release: everything is delivered; allow one more round trip (acks may name messages the timeout already forgot)
     for _ in 0..3 {
@@ -146,8 +176,9 @@ fn resend_strategy() -> impl Strategy<Value = Resend> {
         proptest::collection::vec(proptest::collection::vec(any::<u8>(), 0..6), 0..3),
         any::<bool>(),
         0u8..2,
+        any::<bool>(),
     )
-        .prop_map(|((sync, track, children, timeout_ms, entities), hold, idle_frames, junk, mutate_again, vis)| Resend {
+        .prop_map(|((sync, track, children, timeout_ms, entities), hold, idle_frames, junk, mutate_again, vis, insert_before_release)| Resend {
             sync,
             track,
             children,
@@ -158,6 +189,7 @@ fn resend_strategy() -> impl Strategy<Value = Resend> {
             junk,
             mutate_again,
             vis,
+            insert_before_release,
         })
 }
 
